@@ -215,7 +215,7 @@ def enumToJson (J : JsonEnv) (n : String) (x : Nat) : Json :=
     let i := toInt x
     let s := e.print i
     if unlatin1 s == intText i then .num i else .str s
-  | none => .null
+  | none => .str ""     -- an undeclared enum (excluded by `jwf`): a name no table knows
 
 def bytesJson (L : Leaves) (b : Bytes) : Json := if b.isEmpty then .null else .str (L.b64 b)
 
@@ -249,26 +249,47 @@ def msgJson (J : JsonEnv) (env : Env) (sub : MsgDesc → Val → Json) (n : Stri
     | some d => sub d v
     | none => .null
 
+/-- small shape combinators: the value of a field has the shape of its class, anything else is junk -/
+def onVarint {α} (dflt : α) (g : Nat → α) : Val → α
+  | .varint n => g n
+  | _ => dflt
+def onInt {α} (dflt : α) (g : Int → α) : Val → α
+  | .int i => g i
+  | _ => dflt
+def onBytes {α} (dflt : α) (g : Bytes → α) : Val → α
+  | .bytes b => g b
+  | _ => dflt
+def onList {α} (dflt : α) (g : List Val → α) : Val → α
+  | .list vs => g vs
+  | _ => dflt
+/-- `[seconds, nanos]` of a std time / duration -/
+def onPair {α} (dflt : α) (g : Nat → Nat → α) : Val → α
+  | .msg [.varint s, .varint n] => g s n
+  | _ => dflt
+/-- a pointer: nil, or what it points to -/
+def onOpt {α} (nil : α) (g : Val → α) : Val → α
+  | .none => nil
+  | v => g v
+
 def fieldJson (J : JsonEnv) (env : Env) (sub : MsgDesc → Val → Json) (f : Field) (v : Val) : Json :=
-  match f.jcls, v with
-  | .u64, .varint n => .str (latin1 (natText n))
-  | .i64, .varint n => .str (latin1 (intText (toInt n)))
-  | .i32, .varint n => .num (toInt n)
-  | .bool, .varint n => .bool (n != 0)
-  | .enum e, .varint n => enumToJson J e n
-  | .str, .bytes b => .str (strOf b)
-  | .bytes, .bytes b => bytesJson J.leaves b
-  | .sdkInt, .int i => .str (latin1 (intText i))
-  | .sdkDec, .int i => .str (J.leaves.decText i)
-  | .repStr, .list vs => .arr (vs.map strElem)
-  | .repBytes, .list vs => .arr (vs.map (bytesElem J.leaves))
-  | .msg n, v => msgJson J env sub n v
-  | .optMsg _, .none => .null
-  | .optMsg n, v => msgJson J env sub n v
-  | .repMsg n, .list vs => .arr (vs.map (msgJson J env sub n))
-  | .time, .msg [.varint s, .varint n] => .str (J.leaves.timeText s n)
-  | .dur, .msg [.varint s, .varint n] => .str (J.leaves.durText s n)
-  | _, _ => .null
+  match f.jcls with
+  | .u64 => onVarint .null (fun n => .str (latin1 (natText n))) v
+  | .i64 => onVarint .null (fun n => .str (latin1 (intText (toInt n)))) v
+  | .i32 => onVarint .null (fun n => .num (toInt n)) v
+  | .bool => onVarint .null (fun n => .bool (n != 0)) v
+  | .enum e => onVarint .null (enumToJson J e) v
+  | .str => strElem v
+  | .bytes => onBytes .null (bytesJson J.leaves) v
+  | .sdkInt => onInt .null (fun i => .str (latin1 (intText i))) v
+  | .sdkDec => onInt .null (fun i => .str (J.leaves.decText i)) v
+  | .repStr => onList .null (fun vs => .arr (vs.map strElem)) v
+  | .repBytes => onList .null (fun vs => .arr (vs.map (bytesElem J.leaves))) v
+  | .msg n => msgJson J env sub n v
+  | .optMsg n => onOpt .null (msgJson J env sub n) v
+  | .repMsg n => onList .null (fun vs => .arr (vs.map (msgJson J env sub n))) v
+  | .time => onPair .null (fun s n => .str (J.leaves.timeText s n)) v
+  | .dur => onPair .null (fun s n => .str (J.leaves.durText s n)) v
+  | .bad => .null
 
 def fieldsJson (fj : Field → Val → Json) : List Field → List Val → List (String × Json)
   | f :: fs, v :: vs => (f.name, fj f v) :: fieldsJson fj fs vs
@@ -454,15 +475,18 @@ def fieldsFrom (ff : Field → Json → Option Val) (dflt : Field → Val) :
        | some (vs, r) => some (dflt f :: vs, r)
        | none => none)
 
-/-- `Unmarshaler.unmarshalValue` into a fresh message (unknown members are an error). -/
+/-- A member nobody took is an error (`unknown field %q in %v`, l. 1115). -/
+def msgOfFields : Option (List Val × List (String × Json)) → Option Val
+  | some (vs, []) => some (.msg vs)
+  | _ => none
+
+/-- `Unmarshaler.unmarshalValue` into a fresh message. -/
 def fromJsonAt (J : JsonEnv) (env : Env) : Nat → MsgDesc → Json → Option Val
   | 0, _, _ => none
   | k+1, d, j =>
     match j with
     | .obj kvs =>
-      (match fieldsFrom (fieldFrom J env (fromJsonAt J env k)) (defaultField env (defaultMsg env k)) d.fields kvs with
-       | some (vs, []) => some (.msg vs)
-       | _ => none)
+      msgOfFields (fieldsFrom (fieldFrom J env (fromJsonAt J env k)) (defaultField env (defaultMsg env k)) d.fields kvs)
     | _ => none
 
 def toJson (J : JsonEnv) (env : Env) (d : MsgDesc) (v : Val) : Json := toJsonAt J env depthFuel d v
@@ -521,25 +545,24 @@ def msgCanon (J : JsonEnv) (env : Env) (canon : MsgDesc → Val → Bool) (n : S
     | none => false
 
 def jcanonField (J : JsonEnv) (env : Env) (canon : MsgDesc → Val → Bool) (f : Field) (v : Val) : Bool :=
-  match f.jcls, v with
-  | .u64, .varint n => decide (n < P64)
-  | .i64, .varint n => decide (n < P64)
-  | .i32, .varint n => rangeOK .int32 n
-  | .bool, .varint n => decide (n ≤ 1)
-  | .enum e, .varint n => rangeOK (.enum e) n
-  | .str, .bytes _ => true
-  | .bytes, .bytes _ => true
-  | .sdkInt, .int i => bigOK 256 i
-  | .sdkDec, .int i => bigOK 315 i
-  | .repStr, .list vs => allBytes vs
-  | .repBytes, .list vs => allBytes vs
-  | .msg n, v => msgCanon J env canon n v
-  | .optMsg _, .none => true
-  | .optMsg n, v => msgCanon J env canon n v
-  | .repMsg n, .list vs => vs.all (msgCanon J env canon n)
-  | .time, .msg [.varint s, .varint n] => timeValid s n
-  | .dur, .msg [.varint s, .varint n] => durValid s n
-  | _, _ => false
+  match f.jcls with
+  | .u64 => onVarint false (fun n => decide (n < P64)) v
+  | .i64 => onVarint false (fun n => decide (n < P64)) v
+  | .i32 => onVarint false (rangeOK .int32) v
+  | .bool => onVarint false (fun n => decide (n ≤ 1)) v
+  | .enum e => onVarint false (rangeOK (.enum e)) v
+  | .str => onBytes false (fun _ => true) v
+  | .bytes => onBytes false (fun _ => true) v
+  | .sdkInt => onInt false (bigOK 256) v
+  | .sdkDec => onInt false (bigOK 315) v
+  | .repStr => onList false allBytes v
+  | .repBytes => onList false allBytes v
+  | .msg n => msgCanon J env canon n v
+  | .optMsg n => onOpt true (msgCanon J env canon n) v
+  | .repMsg n => onList false (fun vs => vs.all (msgCanon J env canon n)) v
+  | .time => onPair false timeValid v
+  | .dur => onPair false durValid v
+  | .bad => false
 
 def jcanonFields (cf : Field → Val → Bool) : List Field → List Val → Bool
   | [], [] => true
@@ -562,16 +585,22 @@ def jcanonical (J : JsonEnv) (env : Env) (d : MsgDesc) (v : Val) : Bool := jcano
 `allLeavesAt P` holds when `P cls v` holds of every non-message field of the value — through embedded messages,
 repeated messages and the message packed in every `Any`. -/
 
-def anyLeaves (J : JsonEnv) (env : Env) (rec : MsgDesc → Val → Bool) (v : Val) : Bool :=
+/-- The message packed in an `Any`: the descriptor its type URL resolves to and the decoded value. -/
+def anyInner (J : JsonEnv) (env : Env) (v : Val) : Option (MsgDesc × Val) :=
   match v with
   | .msg [.bytes u, .bytes val] =>
     match resolveAny J env u with
     | some d' =>
       match decode env d' val with
-      | some v' => rec d' v'
-      | none => true
-    | none => true
-  | _ => true
+      | some v' => some (d', v')
+      | none => none
+    | none => none
+  | _ => none
+
+def anyLeaves (J : JsonEnv) (env : Env) (rec : MsgDesc → Val → Bool) (v : Val) : Bool :=
+  match anyInner J env v with
+  | some (d', v') => rec d' v'
+  | none => true
 
 def msgLeaves (J : JsonEnv) (env : Env) (rec : MsgDesc → Val → Bool) (n : String) (v : Val) : Bool :=
   if n = anyName then anyLeaves J env rec v
@@ -580,12 +609,11 @@ def msgLeaves (J : JsonEnv) (env : Env) (rec : MsgDesc → Val → Bool) (n : St
     | none => true
 
 def fieldLeaves (J : JsonEnv) (env : Env) (P : JCls → Val → Bool) (rec : MsgDesc → Val → Bool) (f : Field) (v : Val) : Bool :=
-  match f.jcls, v with
-  | .msg n, v => msgLeaves J env rec n v
-  | .optMsg _, .none => true
-  | .optMsg n, v => msgLeaves J env rec n v
-  | .repMsg n, .list vs => vs.all (msgLeaves J env rec n)
-  | c, v => P c v
+  match f.jcls with
+  | .msg n => msgLeaves J env rec n v
+  | .optMsg n => onOpt true (msgLeaves J env rec n) v
+  | .repMsg n => onList true (fun vs => vs.all (msgLeaves J env rec n)) v
+  | c => P c v
 
 def fieldsLeaves (fl : Field → Val → Bool) : List Field → List Val → Bool
   | f :: fs, v :: vs => fl f v && fieldsLeaves fl fs vs
@@ -618,8 +646,11 @@ def bothLeaf (J : JsonEnv) (c : JCls) (v : Val) : Bool := enumLeaf J c v && utf8
 
 /-- No enum-typed field at all. -/
 def noEnumLeaf : JCls → Val → Bool
-  | .enum _, _ => false
+  | .enum _, .varint _ => false
   | _, _ => true
+
+/-- Some enum-typed field occurs in the value (at any depth, also inside a packed `Any`). -/
+def hasEnumField (J : JsonEnv) (env : Env) (d : MsgDesc) (v : Val) : Bool := !allLeavesAt J env noEnumLeaf depthFuel d v
 
 def enumsParseBack (J : JsonEnv) (env : Env) (d : MsgDesc) (v : Val) : Bool := allLeavesAt J env (enumLeaf J) depthFuel d v
 def stringsUtf8 (J : JsonEnv) (env : Env) (d : MsgDesc) (v : Val) : Bool := allLeavesAt J env utf8Leaf depthFuel d v
